@@ -1,5 +1,5 @@
 from typing import Protocol, Optional
-from remerkleable.tree import Node, Root, RebindableNode, NavigationError
+from remerkleable.tree import Node, Root, RootNode, RebindableNode, NavigationError, Gindex, Link
 
 
 class VirtualSource(Protocol):
@@ -52,6 +52,13 @@ class VirtualNode(RebindableNode, Node):
         if self._is_leaf is None:
             self._is_leaf = self._src.is_leaf(self._root)
         return self._is_leaf
+
+    def setter(self, target: Gindex, expand: bool = False) -> Link:
+        # A virtual node that is a leaf behaves like the materialised leaf with the same root:
+        # it cannot be navigated into, but a zero-subtree summary can be expanded.
+        if target > 1 and self.is_leaf():
+            return RootNode(self._root).setter(target, expand=expand)
+        return super().setter(target, expand=expand)
 
     @property
     def root(self) -> Root:
